@@ -249,8 +249,12 @@ func (x *Exec) callContract(fr *Frame, st *State, c *Contract, callee *ssa.Funct
 	pre := st.clone()
 	// frame
 	if c.HasAssigns || c.Pure {
+		// every assignable place is the one denoted in the pre-state of the call
+		preEnv := *env
+		preEnv.cur = pre
+		preEnv.old = pre
 		for _, a := range c.Assigns {
-			x.havocAssign(env, st, a)
+			x.havocAssign(&preEnv, st, a)
 		}
 	} else if callee != nil && callee.Blocks != nil {
 		mods, all := x.funcMods(callee)
@@ -587,6 +591,18 @@ func (x *Exec) havocAssign(env *Env, st *State, src string) {
 				fl := x.s.declare("hv_maplen", "Int")
 				x.assume("true", "(>= "+fl+" 0)")
 				x.heapSet(st, heapKeyMapL(mt), mt, "(store "+ml+" "+v.S+" "+fl+")")
+				return
+			case "anyobj", "anyelems":
+				// anyobj(T): any heap object of type T; anyelems(T): the elements of any []T
+				t, ok := env.tryType(call.Args[0])
+				if !ok {
+					panic(contractError(fmt.Sprintf("assigns %s: unknown type", src)))
+				}
+				if id.Name == "anyobj" {
+					x.havocKeyCall(st, heapKeyObj(t), t)
+				} else {
+					x.havocKeyCall(st, heapKeySlice(t), t)
+				}
 				return
 			case "all":
 				x.havocAll(st, "assigns all")
